@@ -201,37 +201,47 @@ Definition isS (o : option Z) : bool := match o with Some _ => true | None => fa
 Definition first_active (st : state) : Z :=
   match find (fun l => Z.testbit (exec st) l) (map Z.of_nat (seq 0 64)) with Some l => l | None => 0 end.
 
-Definition exec_spec_v (a : arch) (st : state) (i : inst) : option state :=
-  match i_fmt i, i_op i with
-  | F_VOP1, 2 =>                                         (* V_READFIRSTLANE_B32 *)
-      obind (vsrc B32 st (i_src0 i) (i_lit i) (first_active st)) (fun v => dst32 st (i_dst i) v)
-  | _, _ =>
-  obind (vrow_of a (i_fmt i) (i_op i)) (fun r =>
-  let s0 := fun l => vsrc (r_w0 r) st (i_src0 i) (i_lit i) l in
-  let s1 := fun l => if 2 <=? r_n r then vsrc (r_w1 r) st (i_src1 i) (i_lit i) l else Some 0 in
-  let s2 := fun l => if 3 <=? r_n r then vsrc (r_w2 r) st (i_src2 i) (i_lit i) l else Some 0 in
-  let cin := fun l => match r_cin r with
-                      | SNone => false
-                      | SVcc => Z.testbit (vcc st) l
-                      | SSrc2 => Z.testbit (oget (s2 l)) l end in
-  let ok := fun l => isS (s0 l) && isS (s1 l) && isS (s2 l) &&
-                     r_dom r (oget (s0 l)) (oget (s1 l)) (oget (s2 l)) in
-  if negb (forallb (fun l => negb (active st l) || ok l) (map Z.of_nat (seq 0 64))) then None
-  else
-  let v := fun l => r_val r (oget (s0 l)) (oget (s1 l)) (oget (s2 l)) (cin l) in
-  let m := mask_of (fun l => active st l && r_flag r (oget (s0 l)) (oget (s1 l)) (oget (s2 l)) (cin l)) in
+(** per-lane ingredients of a row applied to an instruction *)
+Definition sp_s0 (r : vrow) (st : state) (i : inst) (l : Z) : option Z :=
+  vsrc (r_w0 r) st (i_src0 i) (i_lit i) l.
+Definition sp_s1 (r : vrow) (st : state) (i : inst) (l : Z) : option Z :=
+  if 2 <=? r_n r then vsrc (r_w1 r) st (i_src1 i) (i_lit i) l else Some 0.
+Definition sp_s2 (r : vrow) (st : state) (i : inst) (l : Z) : option Z :=
+  if 3 <=? r_n r then vsrc (r_w2 r) st (i_src2 i) (i_lit i) l else Some 0.
+Definition sp_cin (r : vrow) (st : state) (i : inst) (l : Z) : bool :=
+  match r_cin r with
+  | SNone => false
+  | SVcc => Z.testbit (vcc st) l
+  | SSrc2 => Z.testbit (oget (sp_s2 r st i l)) l
+  end.
+Definition sp_ok (r : vrow) (st : state) (i : inst) (l : Z) : bool :=
+  isS (sp_s0 r st i l) && isS (sp_s1 r st i l) && isS (sp_s2 r st i l) &&
+  r_dom r (oget (sp_s0 r st i l)) (oget (sp_s1 r st i l)) (oget (sp_s2 r st i l)).
+Definition sp_val (r : vrow) (st : state) (i : inst) (l : Z) : Z :=
+  r_val r (oget (sp_s0 r st i l)) (oget (sp_s1 r st i l)) (oget (sp_s2 r st i l)) (sp_cin r st i l).
+Definition sp_flag (r : vrow) (st : state) (i : inst) (l : Z) : bool :=
+  r_flag r (oget (sp_s0 r st i l)) (oget (sp_s1 r st i l)) (oget (sp_s2 r st i l)) (sp_cin r st i l).
+(** the VGPR file after the instruction: active lanes receive the row's value in
+    the destination register(s), everything else is unchanged *)
+Definition sp_vgpr (r : vrow) (w : width) (st : state) (i : inst) : Z -> Z -> Z := fun l x =>
   let d := i_dst i - 256 in
+  if active st l then
+    (if x =? d then match w with B32 => sp_val r st i l | B64 => sp_val r st i l mod W32 end
+     else if (match w with B32 => false | B64 => x =? d + 1 end) then sp_val r st i l / W32
+     else vgpr st l x)
+  else vgpr st l x.
+
+Definition exec_spec_vgen (a : arch) (st : state) (i : inst) : option state :=
+  obind (vrow_of a (i_fmt i) (i_op i)) (fun r =>
+  if negb (forallb (fun l => negb (active st l) || sp_ok r st i l) (map Z.of_nat (seq 0 64))) then None
+  else
+  let m := mask_of (fun l => active st l && sp_flag r st i l) in
   let st1 :=
     match r_dw r with
     | None => Some st
     | Some w =>
-        if is_vgpr (i_dst i) && (match w with B32 => true | B64 => i_dst i <=? 510 end) then
-          Some (st <| vgpr := fun l x =>
-                  if active st l then
-                    (if x =? d then match w with B32 => v l | B64 => v l mod W32 end
-                     else if (match w with B32 => false | B64 => x =? d + 1 end) then v l / W32
-                     else vgpr st l x)
-                  else vgpr st l x |>)
+        if is_vgpr (i_dst i) && (match w with B32 => true | B64 => i_dst i <=? 510 end)
+        then Some (st <| vgpr := sp_vgpr r w st i |>)
         else None
     end in
   obind st1 (fun st1 =>
@@ -240,5 +250,11 @@ Definition exec_spec_v (a : arch) (st : state) (i : inst) : option state :=
   | DVcc => Some (st1 <| vcc := m |>)
   | DDst => dst64 st1 (i_dst i) m
   | DSdst => dst64 st1 (i_simm i) m
-  end))
+  end)).
+
+Definition exec_spec_v (a : arch) (st : state) (i : inst) : option state :=
+  match i_fmt i, i_op i with
+  | F_VOP1, 2 =>                                         (* V_READFIRSTLANE_B32 *)
+      obind (vsrc B32 st (i_src0 i) (i_lit i) (first_active st)) (fun v => dst32 st (i_dst i) v)
+  | _, _ => exec_spec_vgen a st i
   end.
